@@ -217,7 +217,17 @@ def subStr (d : DState) (k : Option Nat) : String :=
   | some x => stageStr x.stage ++ (match x.proto with | some p => toString p | none => "_")
   | none => "-"
 
-/-- Letters of the messages in protocol `i`'s channel (`Oi`/`Oo` through `inq`). -/
+/-- How the adapter prints the `SubstreamOpened` event of table entry `k`. -/
+def openedStr (d : DState) (k : Nat) : String :=
+  let base := match d.t.subs[k]? with
+    | some x => if x.inbound then "Oi" else s!"Oo{sidOf d k}"
+    | none => "O?"
+  match d.fbOf.lookup k with
+  | some f => base ++ s!".f{f}"
+  | none => base
+
+/-- The messages in protocol `i`'s channel as they will be observed (`SubstreamOpened` through `inq`: the order of two
+substreams negotiated under different names, or with different ids, is part of the state). -/
 def queueLetters (d : DState) (i : Nat) : List String :=
   match d.t.loop.ps.chans[i]? with
   | none => []
@@ -227,9 +237,7 @@ def queueLetters (d : DState) (i : Nat) : List String :=
       match m with
       | .substreamOpened =>
         match acc.2 with
-        | k :: rest => (acc.1 ++ [match d.t.subs[k]? with
-            | some x => if x.inbound then "Oi" else "Oo"
-            | none => "O?"], rest)
+        | k :: rest => (acc.1 ++ [openedStr d k], rest)
         | [] => (acc.1 ++ ["O?"], [])
       | .established => (acc.1 ++ ["E"], acc.2)
       | .closed => (acc.1 ++ ["C"], acc.2)
@@ -291,15 +299,6 @@ def explore (work : List DState) (_seen _finals : List DState) : List DState := 
 
 def letter : Msg → String
   | .established => "E" | .closed => "C" | .substreamOpened => "O" | .openFailure => "X" | .filler => "F"
-
-/-- How the adapter prints the `SubstreamOpened` event of table entry `k`. -/
-def openedStr (d : DState) (k : Nat) : String :=
-  let base := match d.t.subs[k]? with
-    | some x => if x.inbound then "Oi" else s!"Oo{sidOf d k}"
-    | none => "O?"
-  match d.fbOf.lookup k with
-  | some f => base ++ s!".f{f}"
-  | none => base
 
 /-- Protocol `i` takes everything in its channel. -/
 def drainProto (fuel : Nat) (d : DState) (i : Nat) (acc : List String) : DState × List String :=
